@@ -1,2 +1,133 @@
-(* placeholder, replaced below *)
+(* C14I: Mem2Var (vyper/venom/passes/mem2var.py) -- model, specification of the rewrite and validator.  Definitions only.
+
+   The pass promotes  %p = alloca 32  to a variable when %p is used only by mstore / mload / return:
+     mstore %p, v   (operands [v; %p])   ~>  %x = v
+     %o = mload %p  (operands [%p])      ~>  %o = %x
+     return %p, sz  (operands [sz; %p])  ~>  mstore %p, %x ; return %p, sz
+   (%x = alloca_<p>_<k> is a new variable).
+
+   Semantics (mexec, one function; syntax of ISyn.v): the 32-byte word of the alloca is an abstract CELL of the world
+   (cget / cset); an mstore / mload whose address operand is syntactically %p writes / reads the cell, every other
+   instruction -- including memory instructions through other pointers, calls, halting instructions -- is interpreted by
+   an arbitrary oracle ext, as in ISyn.v.  This is the abstract-alloca semantics: distinct allocas are distinct objects,
+   an object is reachable only through its pointer.  M2VProofs.v relates it to concrete byte memory for concretised
+   allocas (C04/Concretize.v). *)
+From Coq Require Import ZArith NArith Bool List String Lia.
 From Verif Require Import C14I.ISyn.
+Import ListNotations.
+Open Scope string_scope.
+Open Scope list_scope.
+
+Definition is_opvar (p : N) (o : operand) : bool := match o with OVar y => N.eqb y p | _ => false end.
+
+(* accesses of the cell: mstore [v; %p] [] with v <> %p, and o = mload [%p] with o <> p *)
+Definition is_cstore (p : N) (i : inst) : bool :=
+  String.eqb (i_op i) "mstore" &&
+  match i_args i, i_outs i with [v; a], [] => is_opvar p a && negb (is_opvar p v) | _, _ => false end.
+Definition is_cload (p : N) (i : inst) : bool :=
+  String.eqb (i_op i) "mload" &&
+  match i_args i, i_outs i with [a], [o] => is_opvar p a && negb (N.eqb o p) | _, _ => false end.
+Definition is_creturn (p : N) (i : inst) : bool :=
+  String.eqb (i_op i) "return" &&
+  match i_args i, i_outs i with [sz; a], [] => is_opvar p a && negb (is_opvar p sz) | _, _ => false end.
+Definition cell_access (p : N) (i : inst) : bool := is_cstore p i || is_cload p i.
+Definition mmodelled (op : string) : bool := existsb (String.eqb op) ["assign"; "phi"; "jmp"; "jnz"; "djmp"; "ret"].
+
+Section MSem.
+  Variable Wd : Type.
+  Variable ext : string -> list Z -> Wd -> option (list Z * Wd).
+  Variable lv : N -> Z.
+  Variable cget : Wd -> Z.
+  Variable cset : Z -> Wd -> Wd.
+  Variable p : N.
+
+  Notation oval := (oval lv).
+  Notation ovals := (ovals lv).
+  Notation enter := (enter lv).
+  Definition iat (F : func) (b pc : nat) : option inst := nth_error (nth_block F b) pc.
+
+  (* mexec F b pc e w r: about to execute instruction pc of block b with variables e in world w; finishes with r *)
+  Inductive mexec (F : func) : nat -> nat -> env -> Wd -> result Wd -> Prop :=
+  | x_assign : forall b pc e w r a o v,
+      iat F b pc = Some (mkI "assign" [a] [o]) -> oval e a = Some v ->
+      mexec F b (S pc) (upd e o v) w r -> mexec F b pc e w r
+  | x_cstore : forall b pc e w r v z,
+      iat F b pc = Some (mkI "mstore" [v; OVar p] []) -> is_opvar p v = false -> oval e v = Some z -> e p <> None ->
+      mexec F b (S pc) e (cset z w) r -> mexec F b pc e w r
+  | x_cload : forall b pc e w r o,
+      iat F b pc = Some (mkI "mload" [OVar p] [o]) -> N.eqb o p = false -> e p <> None ->
+      mexec F b (S pc) (upd e o (cget w)) w r -> mexec F b pc e w r
+  | x_ext : forall b pc e w r i vs outs w' e',
+      iat F b pc = Some i -> mmodelled (i_op i) = false -> cell_access p i = false ->
+      ovals e (i_args i) = Some vs -> ext (i_op i) vs w = Some (outs, w') -> upd_many e (i_outs i) outs = Some e' ->
+      mexec F b (S pc) e' w' r -> mexec F b pc e w r
+  | x_halt : forall b pc e w i vs,
+      iat F b pc = Some i -> mmodelled (i_op i) = false -> cell_access p i = false ->
+      ovals e (i_args i) = Some vs -> ext (i_op i) vs w = None ->
+      mexec F b pc e w (RHalt (i_op i) vs w)
+  | x_jmp : forall b pc e w r l e' pc',
+      iat F b pc = Some (mkI "jmp" [OLab l] []) ->
+      enter (nth_block F (N.to_nat l)) b e = Some (e', pc') ->
+      mexec F (N.to_nat l) pc' e' w r -> mexec F b pc e w r
+  | x_jnz : forall b pc e w r c t fl v e' pc',
+      iat F b pc = Some (mkI "jnz" [c; OLab t; OLab fl] []) -> oval e c = Some v ->
+      let l := if Z.eqb v 0 then fl else t in
+      enter (nth_block F (N.to_nat l)) b e = Some (e', pc') ->
+      mexec F (N.to_nat l) pc' e' w r -> mexec F b pc e w r
+  | x_djmp : forall b pc e w r tgt labs v l e' pc',
+      iat F b pc = Some (mkI "djmp" (tgt :: labs) []) -> oval e tgt = Some v ->
+      In (OLab l) labs -> lv l = v ->
+      enter (nth_block F (N.to_nat l)) b e = Some (e', pc') ->
+      mexec F (N.to_nat l) pc' e' w r -> mexec F b pc e w r
+  | x_ret : forall b pc e w args vals,
+      iat F b pc = Some (mkI "ret" args []) -> ovals e (removelast args) = Some vals ->
+      mexec F b pc e w (RRet vals w).
+End MSem.
+
+(* ------------------------------------------------------------------ the specification of _process_alloca_var *)
+Definition m2v_inst (p x : N) (i : inst) : list inst :=
+  if is_cstore p i then [mkI "assign" [nth 0 (i_args i) (OLit 0)] [x]]
+  else if is_cload p i then [mkI "assign" [OVar x] (i_outs i)]
+  else if is_creturn p i then [mkI "mstore" [OVar x; OVar p] []; i]
+  else [i].
+Definition m2v_spec (F : func) (p x : N) : func := map (flat_map (m2v_inst p x)) F.
+
+(* ------------------------------------------------------------------ the validator *)
+(* p may occur only as the address of a cell access, as the address of a return, and as the output of  alloca 32 *)
+Definition is_alloca32 (p : N) (i : inst) : bool :=
+  String.eqb (i_op i) "alloca" &&
+  match i_args i, i_outs i with [OLit 32], [o] => N.eqb o p | _, _ => false end.
+Definition p_use_ok (p : N) (i : inst) : bool :=
+  is_cstore p i || is_cload p i || is_creturn p i || is_alloca32 p i ||
+  (negb (existsb (is_opvar p) (i_args i)) && negb (memN p (i_outs i))).
+
+(* "the cell has certainly been written and %x holds its value": at (b, pc) if b is in the certificate S or a cell store
+   precedes pc in block b *)
+Definition stored_at (F : func) (p : N) (S : list nat) (b pc : nat) : bool :=
+  existsb (Nat.eqb b) S || existsb (is_cstore p) (firstn pc (nth_block F b)).
+Definition jump_targets (blk : block) : list N := block_targets blk.
+(* every block of S is entered only from blocks at whose end the cell is stored; the entry block is not in S *)
+Definition cert_ok (F : func) (p : N) (S : list nat) : bool :=
+  negb (existsb (Nat.eqb 0) S) &&
+  forallb (fun qb : nat * block =>
+             forallb (fun t => negb (existsb (Nat.eqb (N.to_nat t)) S) || stored_at F p S (fst qb) (List.length (snd qb)))
+                     (jump_targets (snd qb)))
+          (combine (seq 0 (List.length F)) F).
+Fixpoint reads_ok (F : func) (p : N) (S : list nat) (b : nat) (pc : nat) (l : list inst) : bool :=
+  match l with
+  | [] => true
+  | i :: t => (if is_cload p i || is_creturn p i then stored_at F p S b pc else true) &&
+              (if is_creturn p i then match t with [] => true | _ => false end else true) &&
+              reads_ok F p S b (Datatypes.S pc) t
+  end.
+
+Definition mem2var_check (F : func) (p x : N) (S : list nat) (F' : func) : bool :=
+  func_ok F &&
+  negb (memN x (func_vars F)) && negb (N.eqb x p) &&
+  forallb (p_use_ok p) (func_insts F) &&
+  cert_ok F p S &&
+  forallb (fun qb : nat * block => reads_ok F p S (fst qb) 0 (snd qb)) (combine (seq 0 (List.length F)) F) &&
+  func_eqb F' (m2v_spec F p x).
+(* the inputs the validator is about (everything except the certificate and the output) *)
+Definition mem2var_domain (F : func) (p x : N) : bool :=
+  func_ok F && negb (memN x (func_vars F)) && negb (N.eqb x p) && forallb (p_use_ok p) (func_insts F).
